@@ -57,6 +57,17 @@ CLAIMED = {
         "DESIGN.md section 4, C04",
         "schedules and real multi-process behaviour are not explored; fasteners trusted.",
     ),
+    "C07": (
+        "decision-table composition over (element x AtomType x AtomGeom) + record column agreement",
+        "Decides, by composing the ordered decision tables read from Atom.get_mol2_type / set_mol2_type over the whole finite "
+        "space (partition in the quick tier, all 119 elements in the thorough tier), that every emitted atom-type token is "
+        "accepted by molli's own reader and that write(read(token)) == token; the same for bond tokens via the map literal "
+        "and the writer rows; that ATOM/BOND/MOLECULE record columns written (f-string fields, constants, separators, index "
+        "base, charge sentinel) are the columns the positional parser dataclasses and their consumers read; that the two "
+        "sibling writers agree and every dumps_X calls dump_X(stream); and ensemble order both ways.",
+        "DESIGN.md section 4, C07",
+        "three open known findings (F7a: X.pl3 / X.th / X.oh are not fixed points). Numeric precision and labels with whitespace are not decided.",
+    ),
     "C08": (
         "unit-orientation (dimension) check against physical constants + column agreement + keyword forwarding",
         "Decides that every DistanceUnit literal equals the physical constant or its reciprocal, that all members share "
